@@ -66,6 +66,9 @@ TOPOLOGIES = {
     # 'K...': the policy file is a SYMBOLIC LINK to a revision file kept next
     # to it; an edit writes the next revision and re-points the link
     # atomically (config-management / mounted-volume layouts)
+    # 'T...': like 'M...' with TWO policy directories - a constant file in the
+    # first, the edited file in the second
+    't1twodirs': [('TD', False, False)],
     't1link': [('K', False, False)],
     't2link': [('K', False, False), ('K', True, True)],
 }
@@ -73,12 +76,13 @@ BOUNDS = {
     'quick': [('t1', 8), ('t1late', 8), ('t2own', 6), ('t2shared', 8),
               ('t2late', 6), ('t3', 4), ('t1absent', 7), ('t2absent', 5), ('t1silent', 6),
               ('t1silentdir', 6), ('t2silentdir', 4), ('t1maindir', 6),
-              ('t2maindir', 4), ('t1link', 6), ('t2link', 4)],
+              ('t2maindir', 4), ('t1link', 6), ('t2link', 4),
+              ('t1twodirs', 5)],
     'thorough': [('t1', 12), ('t1late', 12), ('t2own', 14), ('t2shared', 14),
                  ('t2late', 14), ('t3', 8), ('t1absent', 12),
                  ('t2absent', 10), ('t1silent', 12), ('t1silentdir', 12),
                  ('t2silentdir', 8), ('t1maindir', 12), ('t2maindir', 8),
-                 ('t1link', 12), ('t2link', 8)],
+                 ('t1link', 12), ('t2link', 8), ('t1twodirs', 10)],
 }
 
 
@@ -116,6 +120,9 @@ def snap_shared(shared):
 
 
 def rel_of(d):
+    if d.startswith('T'):
+        # two policy directories: the edited file lives in the SECOND one
+        return '%s/q/a.yaml' % d
     if d.startswith('M'):
         return '%s/p[d]/a.yaml' % d
     return '%s/p[d]/o.yaml' % d if d.startswith('P') else '%s/policy.yaml' % d
@@ -139,9 +146,11 @@ class System:
                 if d.islower():
                     self.content[d] = None
                     continue
-                if d.startswith(('P', 'M')):
+                if d.startswith(('P', 'M', 'T')):
                     self.w.mkdir('%s/p[d]' % d)
-                if d.startswith('M'):
+                if d.startswith('T'):
+                    self.w.mkdir('%s/q' % d)
+                if d.startswith(('M', 'T')):
                     self.w.write('%s/policy.yaml' % d, world.dumps_policy(
                         {'svc:chg': 'role:fmain'}, 'json'))
                     self.w.write('%s/p[d]/b.yaml' % d, world.dumps_policy(
@@ -179,7 +188,8 @@ class System:
 
     def make(self, d, end):
         conf = world.new_conf(self.w.path(d),
-                              policy_dirs=['p[d]'] if d.startswith(('P', 'M'))
+                              policy_dirs=['p[d]', 'q'] if d.startswith('T')
+                              else ['p[d]'] if d.startswith(('P', 'M'))
                               else [],
                               enforce_new_defaults=end)
         e = self.P.Enforcer(conf)
